@@ -27,7 +27,7 @@ MANIFEST = {
             "`unvalidated` (cap 5 %), a program it refuses is a violation (with a concrete input when host execution exhibits one). AArch64 and "
             "x86-32 code cannot be executed here: refusals there are reported without a failing input.",
 }
-MODS = ["AsmjitVerif.Props.C05"]
+MODS = ["AsmjitVerif.Props.C05", "AsmjitVerif.Props.C05Idioms"]
 
 
 def generate():
